@@ -38,7 +38,7 @@ PROPS = {
         'not_decided': ['renames of M2M tables and model renames: one-line ALTER TABLE RENAME statements (bounded native only)'],
     },
     'C14': {
-        'families': ['contracts.native'],
+        'families': ['contracts.execution', 'contracts.native'],
         'level': 'other',
         'technique': 'bounded native run of the preview/determinism contract (stand-in; order-insensitivity obligations in progress)',
         'text': 'evolve --sql preview compared statement by statement with the --execute trace, and --sql/--hint output compared across '
